@@ -46,6 +46,17 @@ Theorem C02_olcdm_guard_judges_sampled_curvature : forall (Ls : R) zs1 zs2a zs2b
     (VNum NegInf) cu [("args2kwargs", [VList [num x0; num x1; num x2]])].
 Proof. exact olcdm_guard_judges_sampled_curvature. Qed.
 Print Assumptions C02_olcdm_guard_judges_sampled_curvature.
+(* a sample with no lens at all (supernovae / KDE likelihoods only): non-positive dark-energy density is still rejected, nothing evaluated *)
+Theorem C02_olcdm_guard_without_lenses : forall (Ls : R) om ok h l0 l1 l2 u0 u1 u2 x0 x1 x2 rg cu,
+  inside l0 u0 x0 -> inside l1 u1 x1 -> inside l2 u2 x2 ->
+  (1 - om - ok <= 0 ->
+   yields (Gt Ls om ok h) 100 (CFun src_CosmoLikelihood_likelihood) (Some (cl_obj (VList []) "oLCDM" l0 l1 l2 u0 u1 u2)) [VList [num x0; num x1; num x2]] [] rg cu
+     (VNum NegInf) cu [("args2kwargs", [VList [num x0; num x1; num x2]])]) /\
+  (0 < 1 - om - ok -> exists log,
+   yields (Gt Ls om ok h) 100 (CFun src_CosmoLikelihood_likelihood) (Some (cl_obj (VList []) "oLCDM" l0 l1 l2 u0 u1 u2)) [VList [num x0; num x1; num x2]] [] rg cu
+     (num Ls) cu log /\ map fst log = ["lens"; "cosmo"; "args2kwargs"]).
+Proof. intros; split; intros; [eapply olcdm_guard_no_lenses | eapply olcdm_no_lenses_passes]; eassumption. Qed.
+Print Assumptions C02_olcdm_guard_without_lenses.
 Theorem C02_olcdm_guard_passes : forall (Ls : R) zs1 zs2a zs2b om ok h l0 l1 l2 u0 u1 u2 x0 x1 x2 rg cu,
   inside l0 u0 x0 -> inside l1 u1 x1 -> inside l2 u2 x2 ->
   0 < E2 om ok zs1 -> 0 < E2 om ok zs2b -> 0 < E2 om ok 1100 -> 0 < 1 - om - ok ->
